@@ -10,22 +10,32 @@ Open Scope Z_scope.
    in Python (1 << -1), and so it does in the model *)
 Lemma src_push_integer_eq : forall n, src_push_integer n = of_option (push_integer n).
 Proof.
-  intros n. unfold src_push_integer, push_integer, py_floordiv.
-  destruct (n <? 0) eqn:En; [destruct (n <=? 0) eqn:E0; [reflexivity|lia]|].
-  destruct (n =? 0) eqn:E0.
-  - assert (n = 0) by lia; subst n. reflexivity.
-  - assert (Hn : 0 < n) by lia. destruct (n <=? 0) eqn:E00; [lia|].
-    change (8 =? 0) with false. cbv iota.
-    rewrite (bit_length_bytes n Hn).
+  intros n. unfold src_push_integer, push_integer.
+  destruct (Z.lt_trichotomy n 0) as [Hneg|[H0|Hpos]].
+  - (* negative: whatever the guard looks like, to_bytes refuses a negative integer *)
+    unfold py_floordiv, py_to_bytes_le, py_lshift, of_option.
+    destruct (n <=? 0) eqn:E0; [|lia].
+    split_ifs; try reflexivity; lia.
+  - (* zero: number_of_bytes = 0 and 1 << -1 raises *)
+    subst n. vm_compute. reflexivity.
+  - (* positive *)
+    destruct (n <=? 0) eqn:E00; [lia|].
+    unfold py_floordiv. change (8 =? 0) with false. cbv iota.
+    rewrite (bit_length_bytes n Hpos).
     unfold py_to_bytes_le. rewrite Nat2Z.id.
-    pose proof (nbytes_spec n Hn) as [_ Hhi].
+    pose proof (nbytes_spec n Hpos) as [_ Hhi].
     replace (2 ^ (8 * Z.of_nat (nbytes n))) with (256 ^ Z.of_nat (nbytes n))
       by (change 256 with (2 ^ 8); rewrite <- Z.pow_mul_r by lia; reflexivity).
     set (P := 256 ^ Z.of_nat (nbytes n)) in *.
-    destruct ((0 <=? Z.of_nat (nbytes n)) && (0 <=? n) && (n <? P)) eqn:E; [|lia].
-    unfold py_lshift. pose proof (nbytes_pos n Hn).
-    destruct (Z.of_nat (nbytes n) * 8 - 1 <? 0) eqn:E2; [lia|].
+    unfold py_lshift. pose proof (nbytes_pos n Hpos).
     unfold push_integer_payload, py_truthy_int.
-    destruct (Z.land n (Z.shiftl 1 (Z.of_nat (nbytes n) * 8 - 1)) =? 0) eqn:E3; cbn [negb];
-      rewrite src_op_push_data_eq; reflexivity.
+    repeat match goal with
+           | |- context [if ?c then _ else _] =>
+               lazymatch type of c with bool => idtac end;
+               lazymatch c with context [Z.land] => fail | _ => idtac end;
+               let E := fresh "E" in destruct c eqn:E; cbv beta iota zeta; try lia
+           end;
+    try reflexivity;
+    destruct (Z.land n (Z.shiftl 1 (Z.of_nat (nbytes n) * 8 - 1)) =? 0) eqn:E3; cbn [negb]; cbv beta iota zeta;
+      rewrite ?src_op_push_data_eq; reflexivity.
 Qed.
